@@ -117,12 +117,18 @@ def install_uf_field(I, U, fld):
     return rd, wr, size
 
 
-def ob_exponent_alias(fld, label, rx, exponent_const=None):
+def ob_exponent_alias(fld, label, rx, exponent_const=None, _depth=0):
     """label: human name; rx: regex of the function (res, a[, power]); run with out distinct and out == a, compare the uninterpreted result terms"""
     prog = c02.prog_for("A")          # inst_core.cpp instantiates the wrappers explicitly; fq.cpp / fr.cpp are part of it
-    cands = [n for n in prog.find(rx) if not prog.fn[n].is_decl]
-    if len(cands) != 1:
-        raise Inconclusive("%s: %d definitions" % (label, len(cands)))
+    cands = sorted(n for n in prog.find(rx) if not prog.fn[n].is_decl)
+    if not cands:
+        raise Inconclusive("%s: no definition" % label)
+    if len(cands) > 1 and _depth == 0:
+        # several instantiations (F = Fp<...> and F = the derived class): every one is checked
+        out = None
+        for c_ in cands:
+            out = ob_exponent_alias(fld, label, "(?:" + "|".join(__import__("re").escape(prog.demangled[c_]) for _ in [0]) + ")", exponent_const, 1)
+        return out
     fname = cands[0]
     nparams = len(prog.fn[fname].params)
     U = UF()
